@@ -45,7 +45,7 @@ fn floors(_t: Tier) -> Vec<(&'static str, u64)> {
     vec![("evaluations", 15_000), ("gradients_compared", 15_000), ("distinct_nontrivial", 2_000)]
 }
 
-const POWF_EXP: [f64; 8] = [-2.0, -1.0, -0.5, 0.5, 1.0, 2.0, 3.0, 3.5];
+const POWF_EXP: [f64; 9] = [-2.0, -1.0, -0.5, 0.5, 1.0, 2.0, 3.0, 3.5, 0.0];
 
 pub fn mask_name(mask: &[bool]) -> String {
     mask.iter().map(|b| if *b { 'T' } else { 'U' }).collect()
